@@ -25,5 +25,5 @@ for l in open(os.path.join(ROOT, "properties.jsonl")):
         sel = [ms[i] for i in (f if isinstance(f, list) else [f])]
         ftxt = "Concentrate on this mechanism named in the property (a change somewhere else that breaks the property through it is fine too): " + \
                "; ".join("%s (%s)" % (m["name"], m["where"]) for m in sel) + "."
-    open("/tmp/seed/%s.prompt.txt" % pid, "w").write(tmpl.format(WT=wt, OUT=out, PROP=json.dumps(p, indent=1), ID=pid, FOCUS=ftxt))
+    open("/tmp/seed/%s.prompt.txt" % pid, "w").write(tmpl.format(WT=wt, OUT=out, PROP=json.dumps(p, indent=1), ID=pid, FOCUS=ftxt, STYLE=os.environ.get("SEED_STYLE", "")))
     print(pid, "->", wt, ftxt[:100])
